@@ -627,7 +627,9 @@ impl<T: Storage> RaftCore<T> {
             || m.get_msg_type() == MessageType::MsgRequestVoteResponse
             || m.get_msg_type() == MessageType::MsgRequestPreVoteResponse
         {
-            if m.term == 0 {
+            if m.term == 0
+                && !(m.get_msg_type() == MessageType::MsgRequestPreVoteResponse && m.reject)
+            {
                 // All {pre-,}campaign messages need to have the term set when
                 // sending.
                 // - MsgVote: m.Term is the term the node is campaigning for,
@@ -639,7 +641,9 @@ impl<T: Storage> RaftCore<T> {
                 //   campaigning for
                 // - MsgPreVoteResp: m.Term is the term received in the original
                 //   MsgPreVote if the pre-vote was granted, non-zero for the
-                //   same reasons MsgPreVote is
+                //   same reasons MsgPreVote is. A rejected pre-vote carries the
+                //   local term, which is still zero on a node that has not seen
+                //   any term yet (a pre-vote request does not change it).
                 fatal!(
                     self.logger,
                     "term should be set when sending {:?}",
